@@ -39,6 +39,16 @@ def native_table(P):
             meta = metas.get(m.group(3))
             line = body.count('\n', 0, m.start()) + 1
             out.append(dict(file=rel, struct=m.group(2), meta=meta, meta_name=m.group(3), line=line))
+        # natives written out by hand (print, assert*, the str methods): impl LyNative for X + `CONST.build(hooks)` in impl X
+        have = {o['struct'] for o in out if o['file'] == rel}
+        for m in re.finditer(r'^impl LyNative for (\w+)\b', body, re.M):
+            if m.group(1) in have:
+                continue
+            mm = re.search(r'^impl ' + m.group(1) + r' \{.*?(\w+)\.build\(', body, re.M | re.S)
+            if not mm:
+                continue
+            line = body.count('\n', 0, m.start()) + 1
+            out.append(dict(file=rel, struct=m.group(1), meta=metas.get(mm.group(1)), meta_name=mm.group(1), line=line))
     return out
 
 
